@@ -11,6 +11,7 @@ import optrun
 from optmodel import TRUTHY, FALSY
 
 PROP = "C11"
+CONCURRENT = "parse"   # extra phase: lib/mtindep.py (parsers used by several threads at once)
 LEVEL = "exploration"
 RULE = ("toggle declarations {letter or not} x {reversible or not} x {default none/0/1/3} x {env unbound, "
         "truthy, falsy} x all occurrence sequences up to length 3 (quick) / 4 (thorough) over "
